@@ -52,6 +52,10 @@ def build(case):
             a = int(rng.integers(0, max(1, n - 1)))
             ln = int(rng.integers(2, max(3, case["block_len"])))
             df.iloc[a:a + ln, df.columns.get_loc(c)] = np.nan
+    if case.get("tiny") and "observed" in df.columns:
+        # usage readings that are tiny but NOT zero: they are measurements and must be kept (only an exact zero is a missing electricity reading)
+        pos = rng.choice(n, size=min(n, 6), replace=False)
+        df.iloc[pos, df.columns.get_loc("observed")] = [1e-9, -3e-10, 5e-324, 1e-12, 2.5e-9, -1e-300][: len(pos)]
     if case.get("edge_nan"):
         c = cols[case["edge_nan"] % len(cols)]
         df.iloc[:case.get("edge_len", 20), df.columns.get_loc(c)] = np.nan
@@ -190,6 +194,8 @@ def cases(tier, seed):
     out.append(dict(base, dups=8, dup_order="appended"))
     out.append(dict(base, dups=8, dup_order="sorted", electric=False))
     out.append(dict(base, start_hour=21, edge_nan=1, edge_len=30, n_days=10))
+    out.append(dict(base, tiny=True, nan_frac=0.02))
+    out.append(dict(base, tiny=True, electric=False, ghi=False))
     out.append(dict(base, n_days=3, nan_frac=0.1))            # at most 72 rows: the autocorrelation fill is skipped
     out.append(dict(base, n_days=2, nan_frac=0.1, start_hour=5))
     if tier == "thorough":
@@ -204,7 +210,7 @@ def run(tier="quick", seed=0):
                 "real HourlyBaselineData / HourlyReportingData on hourly frames: zones " + ", ".join(ZONES) + "; first local day in summer, winter, on and two days "
                 "before each 2023 DST change of the zone, and placed so that the LAST day is the DST day; spans of 4-14 days (thorough: up to 40, plus 60, 400 and 730 "
                 "days); start hour in {0,1,6,13,21,23}, end hour in {23,22,12,5,0}; 0-30 % scattered NaN cells, 0-2 NaN blocks of up to 30 hours per column, NaN runs at "
-                "the frame edges, 0-20 % absent rows, 0-6 duplicated timestamps (first occurrence blank or zero in half of them, sorted or appended), 0-10 zero readings, "
+                "the frame edges, 0-20 % absent rows, 0-6 duplicated timestamps (first occurrence blank or zero in half of them, sorted or appended), 0-10 zero readings, tiny non-zero readings (1e-9 .. 5e-324), "
                 "electric / gas, with / without irradiance, baseline / reporting (also without usage), an empty column. Cell-by-cell comparison with the input. "
                 "distinct = case", known_findings=load_known("C17"))
     for case in cases(tier, seed):
